@@ -29,6 +29,7 @@ K_INH_CREATE_AFTER_INSERT = 'C06:inheritable-create-db-error-after-insert'
 K_INH_CREATE_BASEEXC = 'C06:inheritable-create-baseexception-skips-parent-cleanup'
 K_INH_CREATE_CLEANUP = 'C06:inheritable-create-cleanup-fails'
 K_LAZY_EXTRA = 'C06:lazy-set-extra-raises-after-columns-cached'
+K_SET_FK_OBJ = 'C06:set-fk-by-object-written-before-failing-update'
 
 META = {
     'extractors': [],
@@ -47,7 +48,7 @@ META = {
     'level_note': ('Trusted: Lean kernel; the hand-written micro-step program model of main.py / inheritance (tied on every run by three '
                    'correspondence streams: outcome, SQL statement sequence and full post-state, for the uninjected call and for an error '
                    'at every statement index); statement-level atomicity of SQLite; no signal listeners; cacheValues=True. '
-                   'Nine known findings (non-atomic failures of the current code) are reported with stable keys.'),
+                   'Open known findings (non-atomic failures of the current code) are reported with stable keys; the keys of the three repaired ones (a587e1a, 0470de1, bf075e4) are still emitted if the damage shows up again.'),
     'rule': ('case = (registry order variant, history of operations building the state, operation under test); every case is '
              'run uninjected to measure its statement count n and then re-run from a rebuilt identical state with an error '
              'injected at k=1..n (OperationalError; KeyboardInterrupt too for inheritable creates); distinct = distinct '
@@ -56,7 +57,8 @@ META = {
                 'the harness-side connection subclass (statement counter, injected driver error)'],
     'modelled': ['SQLite constraint evaluation order NOT NULL, CHECK, UNIQUE (executed, compared)',
                  'instances unreachable after a failed constructor are dropped from the model state',
-                 'signal listeners, cacheValues=False, transactions (autoCommit off) are outside the model'],
+                 'signal listeners, cacheValues=False, transactions (autoCommit off) are outside the model',
+                 'an exception raised by the application\'s own property setter inside set() is outside the property (counted, not reported)'],
     'assumptions': ['sqlite_sequence (AUTOINCREMENT counters) is not application data: ids consumed by a failed create are not compared',
                     'the injected error is single-shot: statements after the k-th are executed normally',
                     'that a child-level failure of an inheritable create is cleaned up is proved as the algebraic inverse lemma C06_cleanup_undoes_parent_insert plus a decide-checked instance; the path through the interpreter (which statements the clean-up runs when the parent class has dependents) is covered by correspondence sampling and the oracle, not by a general theorem',
@@ -69,26 +71,28 @@ CLS = {
     'A': dict(cols=[('n', dict(alt=True)), ('s', dict(notnull=True)), ('u', dict(unique=True)), ('m', dict(check=100))],
               joins=[('F', 0, 0)], props=True),
     'F': dict(cols=[('v', {})], joins=[('A', 0, 1)]),
-    'B': dict(cols=[('a', dict(fk=('A', 'c'))), ('w', {})]),
+    'B': dict(cols=[('a', dict(fk=('A', 'c'))), ('w', dict(unique=True))], props=True),
     'C': dict(cols=[('a', dict(fk=('A', 'n'))), ('w', {})]),
     'D': dict(cols=[('a', dict(fk=('A', 'r')))]),
     'E': dict(cols=[('b', dict(fk=('B', 'c')))]),
     'N': dict(cols=[('a', dict(fk=('A', 'x')))]),
     'H': dict(cols=[('a1', dict(fk=('A', 'n'))), ('a2', dict(fk=('A', 'c')))]),
     'G': dict(cols=[('a1', dict(fk=('A', 'r'))), ('a2', dict(fk=('A', 'c')))]),
+    'K': dict(cols=[('a1', dict(fk=('A', 'n'))), ('a2', dict(fk=('A', 'r')))]),
     'Lz': dict(lazy=True, cols=[('n', dict(alt=True)), ('m', {})], props=True),
     'Par': dict(inh=True, cols=[('a', dict(alt=True))]),
     'Chi': dict(parent='Par', cols=[('b', dict(alt=True)), ('c', dict(check=100))]),
+    'Gra': dict(parent='Chi', cols=[('g', dict(alt=True))]),
     'DC': dict(cols=[('ref', dict(fk=('Chi', 'r')))]),
     'DP': dict(cols=[('ref', dict(fk=('Par', 'c')))]),
 }
 ORDERS = [
-    ['A', 'F', 'B', 'C', 'D', 'E', 'N', 'H', 'G', 'Lz', 'Par', 'Chi', 'DC', 'DP'],
-    ['D', 'A', 'C', 'G', 'B', 'E', 'F', 'H', 'N', 'Lz', 'Par', 'Chi', 'DP', 'DC'],
-    ['H', 'B', 'E', 'C', 'F', 'A', 'D', 'N', 'G', 'Par', 'Chi', 'Lz', 'DC', 'DP'],
+    ['A', 'F', 'B', 'C', 'D', 'E', 'N', 'H', 'G', 'K', 'Lz', 'Par', 'Chi', 'Gra', 'DC', 'DP'],
+    ['D', 'A', 'C', 'G', 'B', 'E', 'F', 'H', 'K', 'N', 'Lz', 'Par', 'Chi', 'DP', 'Gra', 'DC'],
+    ['H', 'B', 'E', 'C', 'F', 'A', 'D', 'N', 'G', 'Par', 'Chi', 'Gra', 'Lz', 'K', 'DC', 'DP'],
 ]
 LINKS = [('lk0', 'a_id', 'f_id')]
-CHILDNAME = {'Chi': 1, None: None}
+CHILDNAME = {'Chi': 1, 'Gra': 2, None: None}
 _MISSING = object()
 
 
@@ -261,7 +265,13 @@ class Env(object):
         for j, v in kw:
             d[self.v.colnames[c][j]] = self.pyval(v)
         for e in extras:
-            d[{'u': 'nosuch', 'o': 'okp', 'b': 'badp'}[e]] = 5
+            if isinstance(e, (list, tuple)):      # ['f', col, id]: the ForeignKey given by object
+                _, col, tid = e
+                cname = self.v.colnames[c][col]
+                target = CLS[self.v.order[c]]['cols'][col][1]['fk'][0]
+                d[cname[:-2]] = None if tid is None else self.held[(self.v.idx[target], tid)]
+            else:
+                d[{'u': 'nosuch', 'o': 'okp', 'b': 'badp'}[e]] = 5
         return d
 
     def run(self, op, k=None, kind='o'):
@@ -289,6 +299,14 @@ class Env(object):
                 p = v.idx[CLS[v.order[c]]['parent']]
                 d = self.kwargs(p, [x for x in pkw if v.colnames[p][x[0]] != 'childName'])
                 d.update(self.kwargs(c, ckw))
+                obj = v.classes[c](**d)
+                self.held[(c, obj.id)] = obj
+            elif name == 'createChain':
+                _, levels, given = op
+                d = {}
+                for c, j, x in given:
+                    d[v.colnames[c][j]] = self.pyval(x)
+                c = levels[0][0]
                 obj = v.classes[c](**d)
                 self.held[(c, obj.id)] = obj
             elif name == 'destroy':
@@ -420,6 +438,10 @@ def fmt_v(x):
     return 'bad' if x == 'bad' else ('N' if x is None else str(x))
 
 
+def fmt_ex(ex):
+    return ','.join(('f%d=%s' % (e[1], fmt_v(e[2]))) if isinstance(e, (list, tuple)) else e for e in ex) or '-'
+
+
 def fmt_kw(kw):
     return ','.join('%d=%s' % (j, fmt_v(x)) for j, x in kw) or '-'
 
@@ -434,13 +456,15 @@ def op_line(op, k=None, kind='o'):
     if name == 'setattr':
         body = 'setattr %d %d %d %s' % (op[1], op[2], op[3], fmt_v(op[4]))
     elif name == 'set':
-        body = 'set %d %d %s %s' % (op[1], op[2], fmt_kw(op[3]), op[4] or '-')
+        body = 'set %d %d %s %s' % (op[1], op[2], fmt_kw(op[3]), fmt_ex(op[4]))
     elif name == 'sync':
         body = 'sync %d %d' % (op[1], op[2])
     elif name == 'create':
-        body = 'create %d %d %s %s' % (op[1], 1 if op[2] else 0, fmt_kw(op[3]), op[4] or '-')
+        body = 'create %d %d %s %s' % (op[1], 1 if op[2] else 0, fmt_kw(op[3]), fmt_ex(op[4]))
     elif name == 'createChild':
         body = 'createChild %d %s %s' % (op[1], fmt_kw(op[2]), fmt_kw(op[3]))
+    elif name == 'createChain':
+        body = 'createChain ' + ' '.join('%d:%s' % (c, fmt_kw(kw)) for c, kw in op[1])
     elif name == 'destroy':
         body = 'destroy %d %d' % (op[1], op[2])
     else:
@@ -522,36 +546,59 @@ def diff(a, b):
     return '-%s +%s' % ([x for x in a if x not in b][:4], [x for x in b if x not in a][:4])
 
 
-def classify(v, op, out, k, kind, n_clean, clean_out, probs, after=None):
+def classify(v, op, t, probs, after):
     """stable key of the failure mechanism (from the case, not from the damage)"""
+    out, k, kind, clean_out, before = t['out'], t['k'], t['kind'], t['clean_out'], t['before']
     name = op[0]
-    cname = v.order[op[1]]
+    where = 'clean' if k is None else 'k=%d%s' % (k, kind)
+    if name == 'createChain':
+        cidx = op[1][0][0]
+    else:
+        cidx = op[1]
+    cname = v.order[cidx]
     inh = bool(CLS[cname].get('parent'))
     if name == 'destroy':
-        if after is not None and not any(c == op[1] and i == op[2] for c, i, _ in after['T']):
+        if not any(c == op[1] and i == op[2] for c, i, _ in after['T']):
             return 'C06:unexpected:destroy-raised-%s-but-victim-row-deleted' % out
         if inh:
             return K_INH_DESTROY
         if k is None:
-            return K_DESTROY_REFUSED if out == 'Integrity' else 'C06:unexpected:destroy:%s' % out
+            if out != 'Integrity':
+                return 'C06:unexpected:destroy:%s' % out
+            # the known defect: what EARLIER entries of the dependents loop did stays.  The class that
+            # refuses (first in registry order with a row referencing the victim through a cascade=False
+            # key) must not have been touched itself.
+            for c, kname in enumerate(v.order):
+                rcols = [j for j, (_, o) in enumerate(CLS[kname]['cols']) if o.get('fk') == (cname, 'r')]
+                if any(cc == c and any(vals[j] == op[2] for j in rcols) for cc, _, vals in before['T']):
+                    if [r for r in before['T'] if r[0] == c] != [r for r in after['T'] if r[0] == c]:
+                        return 'C06:unexpected:destroy-refused-by-%s-whose-own-rows-changed' % kname
+                    break
+            return K_DESTROY_REFUSED
         if all('changed in memory' in p and p.endswith(', 1)') for p in probs) and len(probs) == 1:
-            return K_DESTROY_OBSOLETE
+            return K_DESTROY_OBSOLETE        # (fixed by a587e1a: a regression if it shows up again)
         return K_DESTROY_DBERR
     if name == 'create' and k is not None and k >= 2:
         return K_CREATE_AFTER_INSERT
-    if name == 'createChild' and k is not None:
-        if kind == 'i':
-            return K_INH_CREATE_BASEEXC if k >= 3 else K_INH_CREATE_AFTER_INSERT if k == 2 else 'C06:unexpected:createChild:interrupt@1'
-        if clean_out != 'ok':
-            # the call fails by itself (validation / constraint at the child level) and the injected error hits the clean-up
-            return K_INH_CREATE_CLEANUP if k > 2 else (K_INH_CREATE_AFTER_INSERT if k == 2 else 'C06:unexpected:createChild@1')
-        if k in (2, 4):
-            return K_INH_CREATE_AFTER_INSERT
-        if k > 4:
-            return K_INH_CREATE_CLEANUP
-    if name == 'set' and CLS[cname].get('lazy') and out in ('TypeError', 'AttributeError'):
-        return K_LAZY_EXTRA
-    return 'C06:unexpected:%s:%s:%s' % (name, out, 'clean' if k is None else 'k=%d%s' % (k, kind))
+    if name in ('createChild', 'createChain') and k is not None:
+        chain = set()
+        c = cname
+        while c:
+            chain.add(v.idx[c])
+            c = CLS[c].get('parent')
+        tok = stmt_token(v, t['log'][k - 1]) if k <= len(t['log']) else '?'
+        if tok[0] == 'S' and int(tok[1:]) in chain:
+            return K_INH_CREATE_AFTER_INSERT       # the read-back SELECT of one level failed
+        if tok[0] == 'I':
+            # an INSERT of the chain failed: the clean-up has to restore everything
+            return K_INH_CREATE_BASEEXC if kind == 'i' else 'C06:unexpected:%s:insert-failure-not-cleaned:%s' % (name, where)
+        return K_INH_CREATE_CLEANUP                # a statement of the clean-up itself failed
+    if name == 'set' and any(isinstance(e, (list, tuple)) for e in op[4]):
+        # a ForeignKey given by object is written by its own UPDATE; the values are validated first
+        return K_SET_FK_OBJ if out != 'Invalid' else 'C06:unexpected:set:fk-by-object-written-before-validation'
+    if name == 'set' and CLS[cname].get('lazy') and out == 'TypeError':
+        return K_LAZY_EXTRA                        # (fixed by bf075e4: a regression if it shows up again)
+    return 'C06:unexpected:%s:%s:%s' % (name, out, where)
 
 
 # ----------------------------------------------------------------------------- cases
@@ -571,7 +618,7 @@ def trials_for(vi, history, op):
     n = len(log)
     res = [dict(k=None, kind='o', out=out, log=log, env=env, before=bd, snap=bs, n=n, clean_out=out)]
     kinds = ['o']
-    if op[0] == 'createChild':
+    if op[0] in ('createChild', 'createChain'):
         kinds.append('i')
     for kind in kinds:
         for k in range(1, n + 1):
@@ -614,11 +661,21 @@ def mk_child(v, a, b, cval=_MISSING):
     return ['createChild', c, pkw, ckw]
 
 
+def mk_chain(v, a, b, g):
+    """Gra(a=…, b=…, g=…): three levels; each non-leaf level validates its given keywords, then the
+    childName it is handed, then its defaulted columns"""
+    P, C, G = v.idx['Par'], v.idx['Chi'], v.idx['Gra']
+    _, gkw = full_kw(v, G, [(0, g)])
+    return ['createChain', [[G, gkw], [C, [(0, b), (2, 2), (1, None)]], [P, [(0, a), (1, 1)]]],
+            [[P, 0, a], [C, 0, b], [G, 0, g]]]
+
+
 def directed(vi):
     """(name, history, op) — the known non-atomic failures first, then corner cases that must hold"""
     v = variant(vi)
     ix = v.idx
     A, F, B, C, D, E, H, Lz, Par, Chi, DC, DP = (ix[x] for x in ['A', 'F', 'B', 'C', 'D', 'E', 'H', 'Lz', 'Par', 'Chi', 'DC', 'DP'])
+    K, Gra = ix['K'], ix['Gra']
     hA = [mk_create(v, 'A', n=1, u=1), mk_create(v, 'A', n=2, u=2)]
     out = []
     graph = hA + [mk_create(v, 'F', v=1), ['link', 0, 1, 1], mk_create(v, 'B', a=1), mk_create(v, 'E', b=1),
@@ -662,6 +719,22 @@ def directed(vi):
     out.append(('lazy-sync-dup', hL + [['set', Lz, 1, [(0, 2), (1, 9)], '']], ['sync', Lz, 1]))
     out.append(('lazy-sync-ok', hL + [['setattr', Lz, 1, 1, 9]], ['sync', Lz, 1]))
     out.append(('lazy-sync-nothing', hL, ['sync', Lz, 1]))
+    hB = hA + [mk_create(v, 'B', a=1, w=1), mk_create(v, 'B', a=1, w=2)]
+    out.append(('set-fkobj-ok', hB, ['set', B, 1, [(1, 5)], [['f', 0, 2]]]))
+    out.append(('set-fkobj-dup', hB, ['set', B, 1, [(1, 2)], [['f', 0, 2]]]))
+    out.append(('set-fkobj-bad', hB, ['set', B, 1, [(1, 'bad')], [['f', 0, 2]]]))
+    out.append(('set-fkobj-only', hB, ['set', B, 1, [], [['f', 0, 2]]]))
+    out.append(('destroy-null-and-restrict-in-one-class', hA + [mk_create(v, 'K', a1=1, a2=1), mk_create(v, 'K', a1=1, a2=None)],
+                ['destroy', A, 1]))
+    out.append(('destroy-null-and-restrict-in-one-class-not-refused', hA + [mk_create(v, 'K', a1=1, a2=2), mk_create(v, 'K', a1=1, a2=None)],
+                ['destroy', A, 1]))
+    hG = [mk_chain(v, 1, 1, 1)]
+    out.append(('chain3-ok', hG, mk_chain(v, 2, 2, 2)))
+    out.append(('chain3-dup-leaf', hG, mk_chain(v, 2, 2, 1)))
+    out.append(('chain3-dup-mid', hG, mk_chain(v, 2, 1, 2)))
+    out.append(('chain3-bad-leaf', hG, mk_chain(v, 2, 2, 'bad')))
+    out.append(('chain3-destroy', hG + [mk_create(v, 'DP', ref=1)], ['destroy', Gra, 1]))
+    out.append(('chain3-destroy-refused', hG + [mk_create(v, 'DC', ref=1)], ['destroy', Gra, 1]))
     hI = [mk_child(v, 1, 1)]
     out.append(('child-ok', hI, mk_child(v, 2, 2)))
     out.append(('child-dup-child', hI, mk_child(v, 2, 1)))
@@ -691,7 +764,7 @@ def random_case(ctx, vi):
             if rng.random() < 0.5:
                 hist.append(['link', 0, a, i])
     ids['F'] = list(range(1, nF + 1))
-    for dep in ['B', 'C', 'D', 'N', 'H', 'G']:
+    for dep in ['B', 'C', 'D', 'N', 'H', 'G', 'K']:
         ids[dep] = []
         p = 0.25 if dep == 'D' else 0.6
         for _ in range(rng.randint(0, 2)):
@@ -703,6 +776,10 @@ def random_case(ctx, vi):
                 hist.append(mk_create(v, 'H', a1=a, a2=rng.choice(ids['A'] + [None])))
             elif dep == 'G':
                 hist.append(mk_create(v, 'G', a1=rng.choice([None, None, a]), a2=rng.choice(ids['A'] + [None])))
+            elif dep == 'K':
+                hist.append(mk_create(v, 'K', a1=a, a2=rng.choice([None, None, a] + ids['A'])))
+            elif dep == 'B':
+                hist.append(mk_create(v, 'B', a=a, w=rng.choice([None, i])))
             else:
                 hist.append(mk_create(v, dep, a=a))
             ids[dep].append(i)
@@ -721,13 +798,19 @@ def random_case(ctx, vi):
             hist.append(['set', ix['Lz'], i, [(1, rng.randint(3, 9))], ''])
     ids['Lz'] = list(range(1, nL + 1))
     nC = rng.randint(0, 2)
+    ids['Gra'] = []
+    ids['Chi'] = []
     for i in range(1, nC + 1):
-        hist.append(mk_child(v, i, i, rng.choice([None, i])))
+        if rng.random() < 0.35:
+            hist.append(mk_chain(v, i, i, i))
+            ids['Gra'].append(i)
+        else:
+            hist.append(mk_child(v, i, i, rng.choice([None, i])))
+            ids['Chi'].append(i)
         if rng.random() < 0.3:
             hist.append(mk_create(v, 'DC', ref=i))
         if rng.random() < 0.3:
             hist.append(mk_create(v, 'DP', ref=i))
-    ids['Chi'] = list(range(1, nC + 1))
 
     def val(col_kind, own=None):
         r = rng.random()
@@ -744,7 +827,7 @@ def random_case(ctx, vi):
     r = rng.random()
     if r < 0.22:
         cols = rng.sample(range(4), rng.randint(1, 4))
-        ex = rng.choice(['', '', '', 'u', 'o', 'b', 'ob'])
+        ex = rng.choice(['', '', '', 'u', 'o', 'b', 'ob', 'bu'])
         op = ['set', ix['A'], rng.choice(ids['A']), [(j, val(kinds_A[j])) for j in cols], ex]
     elif r < 0.30:
         j = rng.randint(0, 3)
@@ -756,7 +839,7 @@ def random_case(ctx, vi):
             op = ['sync', ix['Lz'], i]
         elif q < 0.8:
             op = ['set', ix['Lz'], i, [(j, val(['alt', 'check'][j])) for j in rng.sample(range(2), rng.randint(1, 2))],
-                  rng.choice(['', '', 'u', 'b', 'o'])]
+                  rng.choice(['', '', 'u', 'b', 'o', 'bu', 'ou'])]
         else:
             op = ['setattr', ix['Lz'], i, 1, val('check')]
     elif r < 0.54:
@@ -767,11 +850,27 @@ def random_case(ctx, vi):
         items = list(given.items())
         rng.shuffle(items)
         op = mk_create(v, 'A', **dict(items))
-        op[4] = rng.choice(['', '', '', 'u', 'o'])
+        op[4] = rng.choice(['', '', '', 'u', 'o', 'bu'])
+    elif r < 0.58 and [b for b in ids['B'] if ('B', b) not in forgot]:
+        b = rng.choice([b for b in ids['B'] if ('B', b) not in forgot])
+        ex = [['f', 0, rng.choice(ids['A'] + [None])]]
+        q = rng.random()
+        if q < 0.2:
+            ex = ['o'] + ex
+        elif q < 0.35:
+            ex = ex + ['b']
+        elif q < 0.45:
+            ex = ex + ['u']
+        kw = [] if rng.random() < 0.2 else [(1, rng.choice([None, 1, 2, 7, 'bad', 'bad']))]
+        op = ['set', ix['B'], b, kw, ex]
+    elif r < 0.63:
+        op = mk_chain(v, val('alt'), val('alt'), val('alt'))
     elif r < 0.70:
         op = mk_child(v, val('alt'), val('alt'), rng.choice([_MISSING, None, 5, 100, 'bad']))
     elif r < 0.92:
         op = ['destroy', ix['A'], rng.choice(ids['A'])]
+    elif ids['Gra'] and rng.random() < 0.5:
+        op = ['destroy', ix['Gra'], rng.choice(ids['Gra'])]
     elif ids['Chi']:
         op = ['destroy', ix['Chi'], rng.choice(ids['Chi'])]
     elif [b for b in ids['B'] if ('B', b) not in forgot]:
@@ -792,6 +891,8 @@ def load_corpus():
     d = os.path.join(os.path.dirname(os.path.dirname(os.path.abspath(__file__))), 'corpus', 'C06')
     for path in sorted(glob.glob(os.path.join(d, '*.json'))):
         for case in json.load(open(path)):
+            if case.get('registry_order') not in (None, ORDERS[case['variant']]):
+                raise ValueError('corpus case %r was written for another class list; regenerate it' % case.get('name'))
             out.append((os.path.basename(path) + ':' + case.get('name', '?'), case['variant'],
                         un_json(case['history']), un_json(case['op'])))
     return out
@@ -840,8 +941,12 @@ def run(ctx):
             ctx.case((vi, repr(hist), repr(op), t['k'], t['kind']), nontrivial=(t['out'] != 'ok'),
                      sample={'case': desc, 'outcome': t['out'], 'statements': len(t['log'])},
                      kind='%s/%s%s' % (op[0], t['out'], '' if t['k'] is None else '/inj'))
+            if probs and t['out'] == 'AttributeError':
+                # raised by the application's own property setter inside set(): not a failure of the ORM's write
+                ctx.count('out-of-scope: application setter raised inside set()')
+                probs = []
             if probs:
-                key = classify(v, op, t['out'], t['k'], t['kind'], t['n'], t['clean_out'], probs, env.dump())
+                key = classify(v, op, t, probs, env.dump())
                 if key not in seen_keys or key.startswith('C06:unexpected'):
                     seen_keys.add(key)
                     ctx.oracle_fail(key, '%s raised %s%s but: %s'
@@ -869,7 +974,7 @@ def run(ctx):
         if t['out'] != 'ok':
             same = (after == t['before'])
             quiet = (m_changes.strip() == '0')
-            if desc['op'][0] == 'createChild' and not quiet:
+            if desc['op'][0] in ('createChild', 'createChain') and not quiet:
                 continue     # insert-then-clean-up is a do/undo sequence: changes counted, state restored
             ctx.compare('no completed micro-step changed anything (C06_frame) iff the failed call was a no-op', desc,
                         'noop' if quiet else 'changed', 'noop' if same else 'changed')
